@@ -707,3 +707,82 @@ def const_int_of(facts, b, op, depth=0):
         if rv[0] in ("ref", "cfd", "addr"):
             return const_int_of(facts, b, ["c", rv[-1]], depth + 1)
     return None
+
+
+def bool_returns(facts, body, assume, depth=0):
+    """Set of values ({0}, {1} or {0, 1}) a bool-returning function / closure can return when every call `c` for which
+    `assume(c)` is not None returns that value. Follows calls of workspace closures / functions (their own possible results,
+    under the same assumption) and the Option combinators `is_some_and` / `is_none_or` / `map_or(default, f)` whose result is
+    the predicate's or a constant. Evaluation is per disjunctive state of the dataflow; anything unknown yields {0, 1}."""
+    if depth > 5 or body is None:
+        return {0, 1}
+    dj = dj_of(body, facts)
+
+    def closure_of(op):
+        if op[0] not in ("c", "m"):
+            return None
+        sd = body.single_def(op[1][0])
+        for _ in range(4):
+            if sd and sd[0] == "stmt" and sd[3][0] in ("use",) and sd[3][1][0] in ("c", "m"):
+                sd = body.single_def(sd[3][1][1][0])
+            elif sd and sd[0] == "stmt" and sd[3][0] in ("ref",):
+                sd = body.single_def(sd[3][-1][0])
+        if sd and sd[0] == "stmt" and sd[3][0] == "agg" and sd[3][1][0] == "closure":
+            return facts.body(sd[3][1][1])
+        return None
+
+    forced = {}
+    for bb, c in body.calls():
+        if bb not in body.live_blocks or body.local_ty(c.dest[0]) != "bool":
+            continue
+        a = assume(c)
+        vals = None
+        if a is not None:
+            vals = {a}
+        else:
+            nm = (c.decl or c.name or "").split("::")[-1]
+            res = c.callee.get("res") or c.callee.get("def") or ""
+            if nm in ("is_some_and", "is_none_or", "is_ok_and", "is_err_and") and len(c.args) == 2:
+                cb = closure_of(c.args[1])
+                inner = bool_returns(facts, cb, assume, depth + 1) if cb is not None else {0, 1}
+                vals = inner | ({1} if nm == "is_none_or" else {0})
+            elif nm == "map_or" and len(c.args) == 3:
+                cb = closure_of(c.args[2])
+                inner = bool_returns(facts, cb, assume, depth + 1) if cb is not None else {0, 1}
+                d = const_int_of(facts, body, c.args[1])
+                vals = inner | ({d} if d in (0, 1) else {0, 1})
+            else:
+                cb = facts.body(res) if res else None
+                if cb is not None and cb.crate == body.crate and not cb.is_coroutine and cb.local_ty(0) == "bool":
+                    vals = bool_returns(facts, cb, assume, depth + 1)
+        if vals is not None and len(vals) == 1:
+            forced[("call", bb)] = ("in", frozenset(vals))
+    out = set()
+    found = False
+    for bb in sorted(body.live_blocks):
+        for j, st in enumerate(body.stmts(bb)):
+            if st[0] == "A" and st[1][0] == 0 and not st[1][1]:
+                found = True
+                e = dj.expr_of_rvalue(st[2])
+                for stt in dj.states_before_stmt(bb, j):
+                    # a state that contradicts a forced call result is not an execution under the assumption
+                    if any(stt.get(k) is not None and not in_set(stt.get(k), set(v[1])) and stt.get(k)[0] == "in" for k, v in forced.items()):
+                        continue
+                    hyp = dict(stt)
+                    hyp.update({k: v for k, v in forced.items() if hyp.get(k) is None})
+                    v = dj.eval_in(hyp, e)
+                    out |= {v} if v in (0, 1) else {0, 1}
+        t = body.term(bb)
+        if t[0] == "call" and t[3][0] == 0 and not t[3][1]:
+            found = True
+            k = ("call", bb)
+            # executions that reach this call under the assumption
+            sts = [stt for stt in dj.states_before_stmt(bb, len(body.stmts(bb)))
+                   if not any(stt.get(q) is not None and stt.get(q)[0] == "in" and not in_set(stt.get(q), set(v[1])) for q, v in forced.items())]
+            if not sts:
+                continue
+            if k in forced:
+                out |= set(forced[k][1])
+            else:
+                out |= {0, 1}
+    return out if found else {0, 1}
